@@ -153,6 +153,12 @@ def window(R, rep):
         if parse_callee(t["callee"])[2] == "num_days":
             term = tb.call_term(t)
             win = (i, t, term)
+    if win is None and sites:
+        # the day difference may be computed inside the iterator chain that feeds the look-ahead loop
+        for cond, val, s in guards_of(b, tb, sites[0][0]):
+            for x in subterms(cond):
+                if isinstance(x, tuple) and x and x[0] == "call" and parse_callee(x[1])[2] == "num_days" and win is None:
+                    win = (sites[0][0], {"sp": None}, x)
     if win is None:
         rep.unresolved("R3", "WINDOW", f"no num_days() difference in {b.short}")
         return
